@@ -387,7 +387,7 @@ P('C13', ['tcp.parse', 'tcp.send', 'tcp.processSend', 'tcp.processRead', 'tcp.re
   assumptions=['no-crypto', 'A-RANGE: frame length < 2^31', 'messages are not None (None means "no message" in the parse loop)'])
 
 P('C14', ['transport.incoming', 'transport.dropNode', 'transport.shouldConnect', 'transport.send', 'transport.onDisconnected', 'tcp.disconnect',
-          'tcp.connectionTimeout', 'tcp.trySendBuffer'],
+          'tcp.connectionTimeout', 'tcp.trySendBuffer', 'transport.addNode', 'transport.outgoingConnected', 'transport.connectIfNecessary'],
   'Only the safety clauses a per-call contract can state: identity (a message is only ever delivered as coming from the member whose '
   'address the connection\'s first message named; unknown or removed addresses are disconnected and bound to nothing, O14.1), '
   'membership filter after dropNode (O14.2), single dialer per pair (O14.3), truthful send (O14.4), one disconnect notification '
